@@ -340,6 +340,7 @@ func (s *supervisor) judge(pl []planned) ev.Coverage {
 		"configurations_changing_by_observable":                 perObs,
 		"single_deviation_effect_by_dimension":                  dimReport,
 		"internal_totals":                                       totals,
+		"mechanisms_without_a_run_time_observable":              "sort canary and spill batch size have no counter that can be read without changing bigslice: by construction every Cogroup input goes through sortio.SortReader, which spills each sorted run through sliceio.Spiller (in batches of SpillBatchSize) and merges the runs; the Cogroup programs (cogroup-second, nested-shuffles, shared-sub-slice, cogroup3) give one consumer shard >= 5 rows of a dependency (9 rows, 2-3 keys), so canary 1 and 2 produce several sorted runs per reader where the default 256 produces one; combiner spills (counted above) are also written in batches of SpillBatchSize",
 		"failing_configurations_by_signature":                   failingRuns,
 	}
 }
